@@ -209,8 +209,12 @@ Proof.
   pose proof (load_matches_run osz batch ops [] [] metric0 [] (refines_nil batch)
                 ltac:(intros k off sz H; discriminate) (keys_ok_of_range osz ops Hr) Hd He) as L.
   cbv zeta in L. fold nm0 in L.
-  match goal with |- ?G => idtac G end. match type of L with ?T => idtac T end.
-  rewrite L. cbn [nm_map nm_met]. repeat split.
+  match goal with |- context [fold_left (load_step batch) (entries_of ops) ?init] =>
+    replace (fold_left (load_step batch) (entries_of ops) init)
+      with (nm_map (snd (nm_run osz batch nm0 ops)), nm_met (snd (nm_run osz batch nm0 ops)))
+      by (symmetry; exact L)
+  end.
+  cbn [nm_map nm_met]. repeat split.
 Qed.
 
 (* the full statement fails: an empty put is a file while running and a deletion on reload *)
